@@ -415,7 +415,10 @@ class C13(Suite):
         for t in vocab:
             for c in used:
                 if rng.random() < 0.45:
-                    build.append(["add", t, "t" if c == 0 and rng.random() < 0.5 else ["q", ["id", c]]])
+                    ca = ["q", ["id", c]]
+                    if c == 0 and rng.random() < 0.6:
+                        ca = "t" if rng.random() < 0.7 else ["q", None]
+                    build.append(["add", t, ca])
         if is_ds:
             for c in [1, 2, 3, 4, 5]:
                 if rng.random() < 0.2:
